@@ -117,7 +117,16 @@ def mk_loop(e, parent):
     n.type = e.get('type')
     n.name = g(e, 'name')
     n.parent = parent
-    kids = [mk_loop(x, n) for x in e.findall('loop')] + [mk_seg(x, n) for x in e.findall('segment')]
+    order = {id(x): i for i, x in enumerate(list(e))}
+    kids = []
+    for x in e.findall('loop'):
+        k = mk_loop(x, n)
+        k.decl = order.get(id(x), 0)
+        kids.append(k)
+    for x in e.findall('segment'):
+        k = mk_seg(x, n)
+        k.decl = order.get(id(x), 0)
+        kids.append(k)
     kids.sort(key=lambda c: c.pos)   # stable: at equal position loops come before segments
     n.children = kids
     return n
